@@ -861,6 +861,9 @@ type planned struct {
 }
 
 // record runs the planned per-thread programs concurrently on a fresh real map.
+// panics counts map operations that panicked inside recorded runs.
+var panics atomic.Int64
+
 func record(n int, plans [][]planned) ([]hop, bool) {
 	m := cmap.New[int, int](uint64(n), hashID)
 	var clock atomic.Int64
@@ -887,37 +890,46 @@ func record(n int, plans [][]planned) ([]hop, bool) {
 				}
 				h := hop{tid: t, op: p.op, k: p.k, v: p.v}
 				h.call = clock.Add(1)
-				switch p.op {
-				case "add":
-					h.out = tf(m.Add(p.k, p.v))
-				case "set":
-					m.Set(p.k, p.v)
-					h.out = "-"
-				case "aog":
-					v, ins := m.AddOrGet(p.k, func() int { return p.v })
-					h.out = fmt.Sprintf("%d,%s", v, tf(ins))
-				case "get":
-					h.out = strconv.Itoa(m.Get(p.k))
-				case "gow":
-					v, ch, first := m.GetOrWait(p.k)
-					c := "nil"
-					if ch != nil {
-						c = "c"
-						mu.Lock()
-						if old, ok := keyChan[p.k]; ok && old != ch {
-							uniq = false
+				func() {
+					// a panicking map operation (e.g. close of a closed channel) is an observation, not a crash
+					defer func() {
+						if e := recover(); e != nil {
+							h.out = "panic"
+							panics.Add(1)
 						}
-						keyChan[p.k] = ch
-						mu.Unlock()
+					}()
+					switch p.op {
+					case "add":
+						h.out = tf(m.Add(p.k, p.v))
+					case "set":
+						m.Set(p.k, p.v)
+						h.out = "-"
+					case "aog":
+						v, ins := m.AddOrGet(p.k, func() int { return p.v })
+						h.out = fmt.Sprintf("%d,%s", v, tf(ins))
+					case "get":
+						h.out = strconv.Itoa(m.Get(p.k))
+					case "gow":
+						v, ch, first := m.GetOrWait(p.k)
+						c := "nil"
+						if ch != nil {
+							c = "c"
+							mu.Lock()
+							if old, ok := keyChan[p.k]; ok && old != ch {
+								uniq = false
+							}
+							keyChan[p.k] = ch
+							mu.Unlock()
+						}
+						h.out = fmt.Sprintf("%d,%s,%s", v, c, tf(first))
+					case "has":
+						h.out = tf(m.Contains(p.k))
+					case "vals":
+						v := m.Values()
+						sort.Ints(v)
+						h.out = nats(v)
 					}
-					h.out = fmt.Sprintf("%d,%s,%s", v, c, tf(first))
-				case "has":
-					h.out = tf(m.Contains(p.k))
-				case "vals":
-					v := m.Values()
-					sort.Ints(v)
-					h.out = nats(v)
-				}
+				}()
 				h.ret = clock.Add(1)
 				res[t] = append(res[t], h)
 			}
@@ -1059,10 +1071,10 @@ func runContended(r *lib.Run, n int) {
 		if t == adder {
 			plans[t] = []planned{{op: lib.Pick(r.Rng, []string{"add", "set", "aog"}), k: 0, v: 100 * (t + 1)}}
 		} else {
-			plans[t] = []planned{{op: lib.Pick(r.Rng, []string{"get", "gow", "get", "gow", "has"}), k: 0, v: 100*(t+1) + 1}}
+			plans[t] = []planned{{op: lib.Pick(r.Rng, []string{"get", "gow", "get", "gow", "has", "aog", "add"}), k: 0, v: 100*(t+1) + 1}}
 		}
 		if r.Rng.Chance(50) {
-			plans[t] = append(plans[t], planned{op: lib.Pick(r.Rng, []string{"get", "gow", "add"}), k: 0, v: 100*(t+1) + 2})
+			plans[t] = append(plans[t], planned{op: lib.Pick(r.Rng, []string{"get", "gow", "add", "aog"}), k: 0, v: 100*(t+1) + 2})
 		}
 	}
 	runPlans(r, n, 1, plans, "contended", false)
@@ -1073,6 +1085,12 @@ func runPlans(r *lib.Run, n, keys int, plans [][]planned, count string, always b
 	r.Count(count)
 	if !uniq {
 		r.OracleFail("channel-not-unique", histLine("hist", n, h, nil, false), "two different channels handed out for one key")
+	}
+	for _, o := range h {
+		if o.out == "panic" {
+			r.OracleFail("map-operation-panicked", histLine("hist", n, h, nil, false), fmt.Sprintf("%s on key %d by thread %d panicked", o.op, o.k, o.tid))
+			break
+		}
 	}
 	if msg := weakValues(h); msg != "" {
 		r.OracleFail("values-weak-guarantee", histLine("hist", n, h, nil, false), msg)
@@ -1154,6 +1172,7 @@ func runValRace(r *lib.Run, n, attempts int, line string) {
 		var added []int
 		go func() {
 			defer wg.Done()
+			defer func() { recover() }()
 			for !started.Load() {
 			}
 			for i := 0; i < delay*20; i++ {
@@ -1204,10 +1223,16 @@ func runGosRace(r *lib.Run, seed uint64, n, threads, keys, calls int, line strin
 			plans[t] = append(plans[t], rng.Intn(keys))
 		}
 	}
-	var start atomic.Bool
+	var start, gosPanic atomic.Bool
 	done := make(chan int, threads)
 	for t := 0; t < threads; t++ {
 		go func(t int) {
+			defer func() {
+				if e := recover(); e != nil {
+					gosPanic.Store(true)
+					done <- t
+				}
+			}()
 			for !start.Load() {
 			}
 			for i, k := range plans[t] {
@@ -1238,6 +1263,10 @@ func runGosRace(r *lib.Run, seed uint64, n, threads, keys, calls int, line strin
 			r.Emit(line, out, true)
 			return
 		}
+	}
+	if gosPanic.Load() {
+		out = "bad"
+		r.OracleFail("map-operation-panicked", line, "a GetOrSet caller panicked")
 	}
 	first := map[int]res{}
 	touched := map[int]bool{}
@@ -1496,6 +1525,12 @@ func main() {
 		plans := genPlans(r.Rng, 3, 4, 3, true)
 		h, _ := record(4, plans)
 		r.Count("hist-multishard-values")
+		for _, o := range h {
+			if o.out == "panic" {
+				r.OracleFail("map-operation-panicked", histLine("hist", 4, h, nil, false), fmt.Sprintf("%s on key %d panicked", o.op, o.k))
+				break
+			}
+		}
 		if msg := weakValues(h); msg != "" {
 			r.OracleFail("values-weak-guarantee", histLine("hist", 4, h, nil, false), msg)
 		}
